@@ -189,13 +189,19 @@ func jobsFor(prop, tier string) []*Job {
 		}
 		// prefixes and field-level damage of valid frames: T-mode
 		for t := 1; t <= 15; t++ {
-			for _, sh := range smallWireShapes(t, thorough) {
-				for _, w := range []int{1, 2} {
-					if w == 2 && !thorough && t <= 3 {
-						continue
-					}
-					add("tw/"+tn(t), "ZZ_C04_window", []string{"window"}, append([]int{w}, sh.Args()...)...)
+			for _, sh := range wireShapes(t, false) {
+				if sh.Fld > 0 || sh.Big > 200 {
+					continue
 				}
+				ws := []int{1, 2}
+				if thorough {
+					ws = []int{1, 2, 3}
+				}
+				for _, w := range ws {
+					add("tw/"+tn(t), "ZZ_C04_window", nil, append([]int{w}, sh.Args()...)...)
+				}
+			}
+			for _, sh := range smallWireShapes(t, thorough) {
 				add("prefix/"+tn(t), "ZZ_C04_prefix", []string{"prefix"}, sh.Args()...)
 			}
 		}
@@ -319,13 +325,13 @@ func jobsFor(prop, tier string) []*Job {
 	case "C11":
 		for t := 1; t <= 15; t++ {
 			for _, sh := range apiShapes(t, thorough, false) {
-				if sh.Flen > 128 || sh.Big > 200 {
+				if sh.Flen > 128 || sh.Big > 200 || (sh.Fld > 0 && !thorough) {
 					continue
 				}
 				if (t == 1 || t == 2) && sh.Nz == 0 && sh.Mask&(sh.Mask-1) != 0 && !thorough {
-					continue // many scalar-presence forks times seven encodings
+					continue // many scalar-presence forks times several encodings
 				}
-				j := add("det/"+tn(t), "ZZ_C11_det", []string{"det"}, sh.Args()...)
+				j := add("det/"+tn(t), "ZZ_C11_det", []string{"det"}, append([]int{b2i(thorough)}, sh.Args()...)...)
 				j.NoValidate = true
 			}
 		}
@@ -368,16 +374,13 @@ func jobsFor(prop, tier string) []*Job {
 	case "C13":
 		for t := 1; t <= 15; t++ {
 			for _, sh := range apiShapes(t, thorough, false) {
-				if sh.Flen > 128 || sh.Big > 200 {
+				if sh.Flen > 128 || sh.Big > 200 || (sh.Fld > 0 && !thorough) {
 					continue
 				}
 				if (t == 1 || t == 2) && sh.Nz == 0 && sh.Mask&(sh.Mask-1) != 0 && !thorough {
 					continue
 				}
 				for built := 0; built <= 1; built++ {
-					if t == 14 && built == 1 {
-						continue
-					}
 					j := add("ro/"+tn(t), "ZZ_C13_ro", []string{"ro"}, append([]int{built}, sh.Args()...)...)
 					j.NoValidate = true
 				}
@@ -491,7 +494,7 @@ func jobsFor(prop, tier string) []*Job {
 	return jobs
 }
 
-var setterCount = map[int]int{1: 20, 2: 19, 3: 14, 4: 4, 5: 4, 6: 4, 7: 4, 8: 4, 9: 4, 10: 3, 11: 4, 14: 2, 15: 5}
+var setterCount = map[int]int{1: 20, 2: 19, 3: 14, 4: 4, 5: 4, 6: 4, 7: 4, 8: 4, 9: 4, 10: 3, 11: 4, 14: 5, 15: 5}
 
 func cmdSelftest(args []string) int {
 	w, err := loadWorld()
